@@ -30,6 +30,10 @@ pub fn gen(r: &mut Rng) -> Value {
         return json!({"script": lines.join("\n"), "mode": 3, "inc": inc, "short": r.chance(1, 2)});
     }
     if r.chance(1, 12) {
+        // what the script prints and what the processes it starts print come out in program order
+        return json!({"script": r.pick(&["echo a\nexec echo b\necho c", "echo 1\nexec echo 2\nexec echo 3\necho 4", "exec echo x\necho y"]), "mode": 6, "via": r.below(2)});
+    }
+    if r.chance(1, 12) {
         // information forms: they succeed whatever follows
         return json!({"script": "", "mode": 5, "flag": r.pick(&["--version", "--help", "-h"]), "extra": r.pick(&["", "x", "-e"])});
     }
@@ -65,6 +69,7 @@ pub fn run(input: &Value) -> Option<Value> {
         1 => Proc::new(&bin).arg("-e").arg(script).output(),
         2 => Proc::new(&bin).arg("--eval").arg(script).output(),
         4 => Proc::new(&bin).arg(&fpath).args(input["extra"].as_str().unwrap_or("x").split(' ')).output(),
+        6 => if input["via"].as_u64() == Some(1) { Proc::new(&bin).arg("-e").arg(script).output() } else { Proc::new(&bin).arg(&fpath).output() },
         5 => {
             let mut p = Proc::new(&bin);
             p.arg(input["flag"].as_str().unwrap_or("--version"));
@@ -81,6 +86,15 @@ pub fn run(input: &Value) -> Option<Value> {
     let _ = std::fs::remove_dir_all(&dir);
     let stdout = String::from_utf8_lossy(&out.stdout).to_string();
     let ok_status = out.status.success();
+    if mode == 6 {
+        // the words echoed / printed by the started processes, in program order
+        let want: Vec<String> = script.lines().map(|l| l.split(' ').last().unwrap_or("").to_string()).collect();
+        let got: Vec<String> = stdout.lines().map(|l| l.trim().to_string()).filter(|l| !l.is_empty()).collect();
+        if got != want || !ok_status {
+            return Some(json!({"script": script, "mode": mode, "what": "output differs from program order", "model": want, "real": got}));
+        }
+        return None;
+    }
     let expect_ok = if mode == 5 {
         true
     } else if mode == 3 {
